@@ -302,6 +302,25 @@ theorem hdrParseViols_sub (m : Mod) (it : Item) (h : it ∈ m.items) : ∀ v ∈
   refine List.mem_append_left _ (List.mem_append_right _ (List.mem_append_left _ (List.mem_append_left _ ?_)))
   exact List.mem_flatMap.mpr ⟨it, h, List.mem_append_left _ (List.mem_append_right _ hv)⟩
 
+/-- in a well-formed module no free function is called like an identifier its own file imports (finding F01-17 is the
+violation of this clause: `fn get` next to `use axum::routing::get`) -/
+theorem WF_fn_not_imported (m : Mod) (hw : WF m = true) (it : Item) (hit : it ∈ m.items) (hk : it.kind = "fn".toList) :
+    it.name ∉ (m.imports.filter (·.1 == it.file)).flatMap (·.2) := by
+  intro hm
+  have hv : Viol.fnShadowsImport it.file it.name ∈ violations m := by
+    unfold violations shapeViols
+    refine List.mem_append_left _ (List.mem_append_right _ (List.mem_append_left _ (List.mem_append_left _ ?_)))
+    refine List.mem_flatMap.mpr ⟨it, hit, ?_⟩
+    simp [hk]
+    left
+    obtain ⟨p, hp, hn⟩ := List.mem_flatMap.mp hm
+    have hf := List.mem_filter.mp hp
+    exact ⟨p.1, p.2, ⟨hf.1, by simpa using hf.2⟩, hn⟩
+  unfold WF at hw
+  simp [List.isEmpty_iff] at hw
+  rw [hw] at hv
+  simp at hv
+
 /-- in a well-formed module EVERY helper constructor of EVERY enum agrees with its variant about `Box` -/
 theorem WF_ctor_box (m : Mod) (hw : WF m = true) (it : Item) (hit : it ∈ m.items) (hk : it.kind = "enum".toList)
     (v : Name) (cb pb : Bool) (hc : (v, cb) ∈ it.helperCtors) (hv : it.vboxed.lookup v = some pb) : pb = cb := by
